@@ -199,24 +199,10 @@ def assembly(cx, rep, seg, mid):
         K = ('seq', 'ks0n')
         N = ('len', K)
         seq = r.fields[0].seq if isinstance(r, Struct) and r.path == 'piecewise::Piecewise' and isinstance(r.fields[0], VecV) else None
-        if not isinstance(seq, SeqMap) or seg is None or mid is None:
-            rep.ob('align', inst, False, 'segments are not an elementwise map (or segment/f_dx could not be analysed)', fn=inst, file=file, line=line)
+        if seg is None or mid is None:
+            rep.ob('align', inst, False, 'segment/f_dx could not be analysed', fn=inst, file=file, line=line)
             return
         nfc = NF()
-        n = int_simplify(seq.n, nfc, {N: 3}) if seq.n is not None else None
-        okn = n is not None and nfc(n).equals(nfc(N) - RF.const(1))
-        rep.ob('count', inst, okn, 'number of pieces = %s' % (term_str(n) if n else '?'), fn=inst, file=file, line=line,
-               msg='constrained_spline returns %s pieces, expected one per knot interval (N − 1)' % (term_str(n)[:200] if n else '?'))
-        iv = seq.ivar
-        E = seq.elem
-        if not (isinstance(E, Struct) and E.path == 'piecewise::Segment'):
-            rep.ob('align', inst, False, 'elements are not Segments', fn=inst, file=file, line=line)
-            return
-        lanes = lanes_of(E.fields[1])
-        end = canon_elems(E.fields[0], K, nfc)
-        want_end = canon_elems(('elem', K, it.iadd(iv, ('ic', 1)), 'x'), K, nfc)
-        rep.ob('end', inst, end == want_end, 'end of piece ι = K[ι+1].x (verbatim)', fn=inst, file=file, line=line,
-               msg='piece ι ends at %s, expected the right knot abscissa K[ι+1].x verbatim' % term_str(E.fields[0])[:120])
         seg_end, seg_lanes = seg
         fdx_term, fdx_cond, zero_when = mid
         from ..interp import CallCtx
@@ -239,6 +225,115 @@ def assembly(cx, rep, seg, mid):
             return (e(i1, 'y') - e(i0, 'y')) / (e(i1, 'x') - e(i0, 'x'))
 
         one = ('ic', 1)
+        def check_slopes(ra, rb, iv):
+            total = 0
+            m_last = it.isub(N, ('ic', 3))
+            expect = {
+                ('first', 'left'): ('x0', ('ic', 0)), ('first', 'right'): ('mid', ('ic', 0)),
+                ('middle', 'left'): ('mid', it.isub(iv, one)), ('middle', 'right'): ('mid', iv),
+                ('last', 'left'): ('mid', m_last), ('last', 'right'): ('xn', m_last),
+            }
+            for (cname, side), (kind, m) in expect.items():
+                got = (ra if side == 'left' else rb)[cname]
+                fd_term, fd_cond = fdx_at(m)
+                total += 1
+                label = '%s:%s-%s' % (inst, cname, side)
+                if kind == 'mid':
+                    ok = got == fd_term
+                    rep.ob('align', label, ok, 'slope = f_dx(K[m], K[m+1], K[m+2]) with m = %s' % term_str(m), fn=inst, file=file, line=line,
+                           msg='%s interval, %s slope is %s; expected f_dx on knots %s, +1, +2' % (cname, side, term_str(got)[:200], term_str(m)))
+                else:
+                    conds_found = set(t[1] for t in subterms(got) if t[0] == 'sel')
+                    if conds_found - {fd_cond}:
+                        rep.ob('ends', label, False, 'end slope uses a knot slope from unexpected knots', fn=inst, file=file, line=line,
+                               msg='%s end slope is built from the wrong neighbouring knot slope: guard %s' % (cname, term_str(list(conds_found - {fd_cond})[0])[:200]))
+                        continue
+                    ok = True
+                    detail = ''
+                    for pol in (True, False):
+                        nf = NF({fd_cond: pol})
+                        mval = nf(fd_term)
+                        sec = secant(nf, ('ic', 0), ('ic', 1)) if kind == 'x0' else secant(nf, it.isub(N, ('ic', 2)), it.isub(N, one))
+                        want = RF.const(Fraction(3, 2)) * sec - RF.const(Fraction(1, 2)) * mval
+                        if not nf(got).equals(want):
+                            ok = False
+                            detail = nf.show(nf(got) - want)[:200]
+                    rep.ob('ends', label, ok, 'end slope = 3/2·secant − 1/2·neighbouring knot slope' if ok else 'difference ' + detail, fn=inst, file=file, line=line,
+                           msg='%s end-point slope is not 3/2·(end secant) − 1/2·(neighbouring knot slope): difference %s' % (cname, detail))
+            rep.extra_coverage = dict(getattr(rep, 'extra_coverage', {}), alignment_identities=total)
+
+        def flat(q):
+            if isinstance(q, SeqConcat):
+                out_ = []
+                for p_ in q.parts:
+                    out_ += flat(p_)
+                return out_
+            return [q]
+        parts = flat(seq) if seq is not None else []
+        if len(parts) == 3 and isinstance(parts[0], SeqLit) and len(parts[0].elems) == 1 and isinstance(parts[1], SeqMap) and \
+                isinstance(parts[2], SeqLit) and len(parts[2].elems) == 1:
+            # the two end pieces written out, the interior ones mapped: [head] ++ map(interior) ++ [tail]
+            inner = parts[1]
+            n_in = int_simplify(inner.n, nfc, {N: 3}) if inner.n is not None else None
+            okn = n_in is not None and nfc(n_in).equals(nfc(N) - RF.const(3))
+            rep.ob('count', inst, okn, 'number of pieces = 1 + %s + 1' % (term_str(n_in) if n_in else '?'), fn=inst, file=file, line=line,
+                   msg='constrained_spline returns 2 + %s pieces, expected one per knot interval (N − 1)' % (term_str(n_in)[:200] if n_in else '?'))
+            iv = it.fresh_sym('ι')
+            from ..terms import match_term
+            pat = ('struct', 'piecewise::Segment', seg_end, ('struct', 'poly::Poly3', ('arr',) + tuple(seg_lanes)))
+            vars_ = {sym(n_) for n_ in ('f0', 'f1', 'k0.x', 'k0.y', 'k1.x', 'k1.y')}
+            ra, rb = {}, {}
+            ok_all = True
+            for cname, piece, pos, m_ in (('first', parts[0].elems[0], ('ic', 0), {}),
+                                          ('middle', inner.elem, iv, {inner.ivar: it.isub(iv, one)}),
+                                          ('last', parts[2].elems[0], it.isub(N, ('ic', 2)), {})):
+                got = subst_term(it.abstract(st, piece), m_) if m_ else it.abstract(st, piece)
+                binds = {}
+                ok_m = match_term(pat, got, binds, vars_) and len(binds) == 6
+                rep.ob('align', '%s:closure:%s' % (inst, cname), ok_m, '%s piece = segment(Fa, Ka, Fb, Kb) for argument terms recovered by matching' % cname,
+                       fn=inst, file=file, line=line,
+                       msg='the %s piece of the spline is not the result of segment(left slope, left knot, right slope, right knot)' % cname)
+                if not ok_m:
+                    ok_all = False
+                    continue
+
+                def kidx(bx, by):
+                    if bx[0] == 'elem' and by[0] == 'elem' and bx[1] == K and by[1] == K and bx[3] == 'x' and by[3] == 'y':
+                        ia, ib = int_simplify(bx[2], nfc, {N: 3}), int_simplify(by[2], nfc, {N: 3})
+                        if nfc(ia).equals(nfc(ib)):
+                            return ia
+                    return None
+                i0, i1 = kidx(binds[sym('k0.x')], binds[sym('k0.y')]), kidx(binds[sym('k1.x')], binds[sym('k1.y')])
+                okk = i0 is not None and i1 is not None and nfc(i0).equals(nfc(pos)) and nfc(i1).equals(nfc(pos) + RF.const(1))
+                rep.ob('align', '%s:knots:%s' % (inst, cname), okk, '%s piece is built on knots K[ι], K[ι+1]' % cname, fn=inst, file=file, line=line,
+                       msg='the %s piece (ι = %s) is built on knots K[%s], K[%s]; expected K[ι], K[ι+1]' % (
+                           cname, term_str(pos), term_str(i0) if i0 else '?', term_str(i1) if i1 else '?'))
+                end_ = canon_elems(got[2], K, nfc)
+                want_end = canon_elems(('elem', K, it.iadd(pos, one), 'x'), K, nfc)
+                rep.ob('end', '%s:%s' % (inst, cname), end_ == want_end, 'end of the %s piece = K[ι+1].x (verbatim)' % cname, fn=inst, file=file, line=line,
+                       msg='the %s piece ends at %s, expected the right knot abscissa K[ι+1].x verbatim' % (cname, term_str(got[2])[:120]))
+                ra[cname] = canon_elems(binds[sym('f0')], K, nfc)
+                rb[cname] = canon_elems(binds[sym('f1')], K, nfc)
+            if ok_all:
+                check_slopes(ra, rb, iv)
+            return
+        if not isinstance(seq, SeqMap):
+            rep.ob('align', inst, False, 'segments are not an elementwise map (nor [head] ++ map ++ [tail])', fn=inst, file=file, line=line)
+            return
+        n = int_simplify(seq.n, nfc, {N: 3}) if seq.n is not None else None
+        okn = n is not None and nfc(n).equals(nfc(N) - RF.const(1))
+        rep.ob('count', inst, okn, 'number of pieces = %s' % (term_str(n) if n else '?'), fn=inst, file=file, line=line,
+               msg='constrained_spline returns %s pieces, expected one per knot interval (N − 1)' % (term_str(n)[:200] if n else '?'))
+        iv = seq.ivar
+        E = seq.elem
+        if not (isinstance(E, Struct) and E.path == 'piecewise::Segment'):
+            rep.ob('align', inst, False, 'elements are not Segments', fn=inst, file=file, line=line)
+            return
+        lanes = lanes_of(E.fields[1])
+        end = canon_elems(E.fields[0], K, nfc)
+        want_end = canon_elems(('elem', K, it.iadd(iv, ('ic', 1)), 'x'), K, nfc)
+        rep.ob('end', inst, end == want_end, 'end of piece ι = K[ι+1].x (verbatim)', fn=inst, file=file, line=line,
+               msg='piece ι ends at %s, expected the right knot abscissa K[ι+1].x verbatim' % term_str(E.fields[0])[:120])
         # (i)+(ii) piece ι is `segment(Fa, Ka, Fb, Kb)` for some argument terms: recover them by matching the value-numbered
         # piece against the summary of segment() (whatever pipeline — zip, windows, index loop — delivered the arguments)
         from ..terms import match_term
@@ -353,41 +448,7 @@ def assembly(cx, rep, seg, mid):
             rep.ob('align', inst + ':slopes', False, ea or eb, fn=inst, file=file, line=line, key='C04:align:' + inst,
                    msg='the slope stream uses a position test the alignment rule does not know: %s' % (ea or eb))
             return
-        total = 0
-        m_last = it.isub(N, ('ic', 3))
-        expect = {
-            ('first', 'left'): ('x0', ('ic', 0)), ('first', 'right'): ('mid', ('ic', 0)),
-            ('middle', 'left'): ('mid', it.isub(iv, one)), ('middle', 'right'): ('mid', iv),
-            ('last', 'left'): ('mid', m_last), ('last', 'right'): ('xn', m_last),
-        }
-        for (cname, side), (kind, m) in expect.items():
-            got = (ra if side == 'left' else rb)[cname]
-            fd_term, fd_cond = fdx_at(m)
-            total += 1
-            label = '%s:%s-%s' % (inst, cname, side)
-            if kind == 'mid':
-                ok = got == fd_term
-                rep.ob('align', label, ok, 'slope = f_dx(K[m], K[m+1], K[m+2]) with m = %s' % term_str(m), fn=inst, file=file, line=line,
-                       msg='%s interval, %s slope is %s; expected f_dx on knots %s, +1, +2' % (cname, side, term_str(got)[:200], term_str(m)))
-            else:
-                conds_found = set(t[1] for t in subterms(got) if t[0] == 'sel')
-                if conds_found - {fd_cond}:
-                    rep.ob('ends', label, False, 'end slope uses a knot slope from unexpected knots', fn=inst, file=file, line=line,
-                           msg='%s end slope is built from the wrong neighbouring knot slope: guard %s' % (cname, term_str(list(conds_found - {fd_cond})[0])[:200]))
-                    continue
-                ok = True
-                detail = ''
-                for pol in (True, False):
-                    nf = NF({fd_cond: pol})
-                    mval = nf(fd_term)
-                    sec = secant(nf, ('ic', 0), ('ic', 1)) if kind == 'x0' else secant(nf, it.isub(N, ('ic', 2)), it.isub(N, one))
-                    want = RF.const(Fraction(3, 2)) * sec - RF.const(Fraction(1, 2)) * mval
-                    if not nf(got).equals(want):
-                        ok = False
-                        detail = nf.show(nf(got) - want)[:200]
-                rep.ob('ends', label, ok, 'end slope = 3/2·secant − 1/2·neighbouring knot slope' if ok else 'difference ' + detail, fn=inst, file=file, line=line,
-                       msg='%s end-point slope is not 3/2·(end secant) − 1/2·(neighbouring knot slope): difference %s' % (cname, detail))
-        rep.extra_coverage = dict(getattr(rep, 'extra_coverage', {}), alignment_identities=total)
+        check_slopes(ra, rb, iv)
     guarded(rep, 'align', inst, f, go)
 
 
